@@ -2049,6 +2049,10 @@ def havoc_rebound(it, name, cur):
         return havoc_list(it, name, cur)
     if isinstance(cur, Opaque):
         return Opaque(cur.kind, 'hv_' + name)
+    if isinstance(cur, Stream):
+        # a name that holds the iterable being looped over and is rebound inside the loop: the running loop keeps its own
+        # iterator (Python semantics), the name itself is only passed on
+        return cur
     raise Unsupported('havoc of rebound %s = %r' % (name, cur))
 
 
